@@ -364,6 +364,8 @@ class Inliner(object):
         self.methods = methods      # name -> FunctionDef (self._m)
         self.counter = 0
         self.done = []
+        self.class_names = ()       # the class being read and its bases: ``C._m(self, ..)`` / ``C._s(..)`` (static) calls
+        self.statics = {}           # name -> FunctionDef decorated @staticmethod
 
     def resolve(self, call, local):
         h, lead = None, None
@@ -373,6 +375,15 @@ class Inliner(object):
         elif isinstance(call.func, ast.Attribute) and isinstance(call.func.value, ast.Name) and call.func.value.id == "self" \
                 and call.func.attr in self.methods:
             h, lead = self.methods[call.func.attr], [ast.Name(id="self", ctx=ast.Load())]
+        elif isinstance(call.func, ast.Attribute) and isinstance(call.func.value, ast.Name) \
+                and call.func.value.id in self.class_names:
+            if call.func.attr in self.methods and call.args and isinstance(call.args[0], ast.Name) and call.args[0].id == "self":
+                h, lead = self.methods[call.func.attr], []          # C._m(self, ..): self is the first argument
+            elif call.func.attr in self.statics:
+                h, lead = self.statics[call.func.attr], []
+        elif isinstance(call.func, ast.Attribute) and isinstance(call.func.value, ast.Name) and call.func.value.id == "self" \
+                and call.func.attr in self.statics:
+            h, lead = self.statics[call.func.attr], []
         if h is None or _recursive(h):
             return None, None
         return h, lead
@@ -910,11 +921,15 @@ def inline_new_helpers(tree, ref_tree, hier=None):
     helpers = {s.name: s for s in tree.body if isinstance(s, FuncTypes) and _private(s.name) and s.name not in ref_top
                and not s.decorator_list}
     class_methods = {}
+    class_statics = {}
     for s in tree.body:
         if isinstance(s, ast.ClassDef):
             class_methods[s.name] = {m.name: m for m in s.body if isinstance(m, FuncTypes) and _private(m.name)
                                      and m.name not in ref_methods.get(s.name, set()) and not m.decorator_list
                                      and m.args.args and m.args.args[0].arg == "self"}
+            class_statics[s.name] = {m.name: m for m in s.body if isinstance(m, FuncTypes) and _private(m.name)
+                                     and m.name not in ref_methods.get(s.name, set()) and len(m.decorator_list) == 1
+                                     and isinstance(m.decorator_list[0], ast.Name) and m.decorator_list[0].id == "staticmethod"}
     done = []
     done.extend(_inline_new_constants(tree, ref_tree))
 
@@ -958,6 +973,13 @@ def inline_new_helpers(tree, ref_tree, hier=None):
                     meths.update(class_methods.get(cls, {}))
                     meths = {k: v for k, v in meths.items() if v is not s}
                 inl = Inliner(helpers, meths)
+                if cls is not None:
+                    inl.class_names = tuple([cls] + list((hier or {}).get(cls, ())))
+                    st_ = {}
+                    for b in (hier or {}).get(cls, ()):
+                        st_.update(class_statics.get(b, {}))
+                    st_.update(class_statics.get(cls, {}))
+                    inl.statics = {k: v for k, v in st_.items() if v is not s}
                 known = ref_closures(qual + [s.name])
                 run_inliner(inl, s, known)
                 done.extend(inl.done)
@@ -980,7 +1002,7 @@ def inline_new_helpers(tree, ref_tree, hier=None):
         for container in [tree.body] + [s.body for s in tree.body if isinstance(s, ast.ClassDef)]:
             for i, s in enumerate(list(container)):
                 if isinstance(s, FuncTypes) and (s.name in helpers and helpers[s.name] is s or any(
-                        s is m for ms in class_methods.values() for m in ms.values())):
+                        s is m for ms in list(class_methods.values()) + list(class_statics.values()) for m in ms.values())):
                     uses = 0
                     for n in ast.walk(tree):
                         if isinstance(n, ast.Name) and n.id == s.name and isinstance(n.ctx, ast.Load):
